@@ -488,7 +488,15 @@ func (c *FnVC) makeSlice(x *ssa.MakeSlice) {
 	l := c.toI64(x.Len)
 	cp := c.toI64(x.Cap)
 	b := x.Block()
-	c.oblige("make", fmt.Sprintf("(and (bvsle #x0000000000000000 %s) (bvsle %s %s) (bvsle %s #x3fffffffffffffff))", l, l, cp, cp), b, "make: len/cap in range "+c.srcAt(x.Pos()), x.Pos())
+	// runtime.makeslice panics when len < 0, len > cap or cap*elemsize exceeds maxAlloc (2^48 on amd64)
+	esz := int64(1)
+	if st, ok := x.Type().Underlying().(*types.Slice); ok {
+		if s := types.SizesFor("gc", "amd64").Sizeof(st.Elem()); s > 1 {
+			esz = s
+		}
+	}
+	maxCap := (int64(1) << 48) / esz
+	c.oblige("make", fmt.Sprintf("(and (bvsle #x0000000000000000 %s) (bvsle %s %s) (bvsle %s %s))", l, l, cp, cp, bv64(maxCap)), b, "make: len/cap in range "+c.srcAt(x.Pos()), x.Pos())
 	c.allocBoundCheck(cp, x, "make")
 	base := c.bumpAlloc()
 	c.setVal(x, fmt.Sprintf("(mkSlice (mkLoc %s PNil) #x0000000000000000 %s %s)", base, l, cp))
